@@ -2,6 +2,30 @@
 """Write /verif/seeded/<id>/meta.json from confirm.json/tests.json + the table below."""
 import json, os, glob
 D = {
+ "C01-isrunning_memoized_in_oneshot": ("is_running() gets @memoize_when_activated and joins the oneshot() cache", "a oneshot() block is open on the object and one call inside it validated the PID while the process was alive; the process exits, the PID is recycled and a signal/setter is issued while the block is still open: delivered to the new owner"),
+ "C01-affinity_all_cpus_skips_reuse_check": ("cpu_affinity(): the []-means-all expansion and _raise_if_pid_reused() end up in the two arms of one if/else", "PID reuse plus cpu_affinity([]): the new owner's affinity is reset, no NoSuchProcess"),
+ "C02-is_running_oserror_sticky": ("is_running(): last handler widened to `except (NoSuchProcess, OSError)`", "a transient EMFILE/EIO while probing a live process sets the sticky _gone flag: is_running() False for ever"),
+ "C02-pids_reused_fast_path": ("is_running() trusts the module-wide reused-PID set", "old object's is_running() detects reuse, then every object of the NEW process with that PID answers False until a process_iter() drains the set"),
+ "C03-enoent_checks_proc_dir": ("wrap_exceptions tests /proc/PID instead of /proc/PID/stat before re-raising FileNotFoundError", "half-released process (issue 2418: directory resolvable, every file below ENOENT): ~25 getters leak a bare FileNotFoundError"),
+ "C03-memory_maps_lazy_generator": ("_pslinux.Process.memory_maps() becomes a generator (wrap_exceptions only covers its creation)", "a mapped file carrying ' (deleted)' whose stat() is refused (EACCES/EPERM): bare PermissionError from memory_maps()/as_dict()/process_iter()"),
+ "C04-cache_commit_in_place": ("process_iter() commits with _pmap.clear(); _pmap.update(pmap) instead of rebinding", "thread B starts a pass between A's clear() and update(): B copies an empty cache and yields fresh objects for long-cached, still-alive PIDs"),
+ "C04-nsp_during_iter_keeps_entry": ("process_iter(): the per-process `except NoSuchProcess: remove(pid)` becomes pass", "a cached PID exits during an attrs pass after the listing, the PID is recycled before the next pass: the stale object is yielded for ever"),
+ "C05-cycle_guard_self_loop_only": ("children(recursive=True): guard `child_pid == self.pid` becomes `child_pid == pid` (the node being expanded)", "a parent-table cycle of length >= 2 through the caller: the caller is listed as its own descendant"),
+ "C05-children_reuse_pmap_instances": ("children() uses `_pmap.get(pid) or Process(pid)`", "process_iter() cached PID X, X's owner exits, X is recycled as a child of the caller with no process_iter() in between: children() returns the previous owner's object (or drops the live child)"),
+ "C07-blocking_skips_baseline": ("blocking cpu_percent(interval>0) no longer records its end sample as the thread's previous sample", "per-thread sequence non-blocking, blocking, non-blocking with different load: the third call spans back to the first"),
+ "C07-guest_needs_guest_nice": ("_cpu_tot_time() subtracts guest only when guest_nice exists too", "/proc/stat with exactly 9 fields (guest without guest_nice) and a guest counter that advances"),
+ "C10-reminder_keys_overwritten": ("_WrapNumbers.run(): the set of wrapped counters of a device is replaced instead of extended", "counter A of a device wraps, later counter B wraps, the device vanishes and reappears: A's stale offset survives"),
+ "C10-cache_clear_not_excluded": ("wrap_numbers() takes a per-name lock while cache_clear()/cache_info() keep the old one", "cache_clear() from thread B while thread A is inside run(): every later call raises KeyError"),
+ "C14-isfile_strict_enoent_only": ("isfile_strict() only swallows FileNotFoundError", "a descriptor target whose stat fails with ENOTDIR/ELOOP/ESTALE/EIO: open_files() raises for a live process"),
+ "C14-mode_table_append_rdonly": ("file_flags_to_mode() becomes a lookup table with 'r+' as fallback", "O_RDONLY|O_APPEND (and access mode 3 | O_APPEND) reported as 'r+'"),
+ "C15-wait_none_not_cached": ("Process.wait() no longer caches a None result", "wait() returned None for a non-child, the PID is recycled, wait() again: polls the stranger (TimeoutExpired / blocks)"),
+ "C15-wait_procs_round_deadline": ("wait_procs() reads the clock once per round instead of once per process", "two or more survivors near the deadline and a fractional timeout: returns up to one second late"),
+ "C16-cmdline_zombie_check_cached_status": ("cmdline()'s zombie test uses the (cached) status() instead of the uncached probe", "stat cached while alive, the process becomes a zombie inside the block, cmdline(): [] instead of ZombieProcess, as_dict gives [] instead of ad_value"),
+ "C16-nested_check_truthy_cache": ("oneshot(): nested-block check hasattr(self, '_cache') becomes getattr(..., None) (an empty cache is falsy)", "outer block with only getters not memoised at Process level, then a nested block: the inner exit wipes the caches"),
+ "C19-cpufreq_cpuinfo_index_pairing": ("cpu_freq(): `len(paths) == len(cpuinfo_freqs)` becomes `i < len(cpuinfo_freqs)`", "number of cpufreq policies differs from the number of 'cpu MHz' lines (offline CPU, cluster-shared policies)"),
+ "C19-boot_time_1s_fluctuation_damping": ("Linux boot_time() keeps the remembered value when the new btime is within 1 s", "boot_time()/create_time() call, wall clock stepped by less than ~1 s, boot_time() again: stale value"),
+ "C20-osx_zombie_from_oneshot_cache": ("_psosx.is_zombie() reads the status through the kinfo getter memoised by oneshot()", "inside one oneshot() block kinfo cached while running, the process becomes a zombie, a native call fails with ESRCH: plain NoSuchProcess instead of ZombieProcess"),
+ "C20-win_cached_name_not_propagated": ("Windows branch of Process.name() returns before `self._proc._name = name`", "on Windows after name() was called any translated failure carries name=None"),
  "C01-gone_not_sticky": ("drops the `if self._gone: raise NoSuchProcess` guard at the end of _raise_if_pid_reused() (reverts fix 7ba203e)", "the process exits, psutil observes it gone (is_running() False / signal ESRCH / Popen whose child already died) and only then the PID is recycled: signals and setters reach the new owner"),
  "C01-eq_unknown_ctime_wildcard": ("__eq__ compares by PID only when one creation time is unknown", "PID recycled by a process whose creation time cannot be read at re-validation (EACCES on /proc/pid/stat, zombie owner): is_running() judges (pid, None) equal, signals/setters reach the new owner"),
  "C02-hash_abs_ctime": ("__hash__ hashes (pid, absolute create time) instead of the identity tuple", "object A created, wall clock stepped (btime changes), boot_time() called, object B created for the same live process: equal objects hash differently"),
